@@ -12,23 +12,23 @@ Notation world := (@world G).
 Notation M := (@M G).
 Notation P := (@P G).
 Notation to_stream := (to_stream mkgen).
-Notation sel := (sel mkgen gseed).
-Notation request := (request draw mkgen gseed).
-Notation lift := (lift mkgen gseed).
-Notation with_stream := (with_stream mkgen gseed).
+Notation sel := (sel mkgen).
+Notation request := (request draw mkgen).
+Notation lift := (lift mkgen).
+Notation with_stream := (with_stream mkgen).
 Notation preq := (preq draw).
-Notation dg_data := (dg_data draw mkgen gseed).
-Notation dg_dataset := (dg_dataset draw mkgen gseed).
-Notation dg_empi_seq := (dg_empi_seq draw mkgen gseed).
-Notation dg_empi_seqs := (dg_empi_seqs draw mkgen gseed).
-Notation ex_data := (ex_data draw mkgen gseed).
-Notation ex_dataset := (ex_dataset draw mkgen gseed).
-Notation ex_empi_seq := (ex_empi_seq draw mkgen gseed).
-Notation ex_empi_seqs := (ex_empi_seqs draw mkgen gseed).
+Notation dg_data := (dg_data draw mkgen).
+Notation dg_dataset := (dg_dataset draw mkgen).
+Notation dg_empi_seq := (dg_empi_seq draw mkgen).
+Notation dg_empi_seqs := (dg_empi_seqs draw mkgen).
+Notation ex_data := (ex_data draw mkgen).
+Notation ex_dataset := (ex_dataset draw mkgen).
+Notation ex_empi_seq := (ex_empi_seq draw mkgen).
+Notation ex_empi_seqs := (ex_empi_seqs draw mkgen).
 Notation tomo_empi_dist := (tomo_empi_dist draw mkgen gseed).
 Notation tomo_empi_dists := (tomo_empi_dists draw mkgen gseed).
 Notation tomo_empi_dists_seq := (tomo_empi_dists_seq draw mkgen gseed).
-Notation md_sampling := (md_sampling draw mkgen gseed).
+Notation md_sampling := (md_sampling draw mkgen).
 Notation run_call := (run_call draw mkgen gseed).
 Notation call_nf := (call_nf draw mkgen gseed).
 Notation call_body := (call_body draw).
@@ -41,7 +41,7 @@ Notation copy_experiment := (copy_experiment gseed).
 
 (* r denotes an existing, state-threading stream of w *)
 Definition valid (r : sref) (w : world) : Prop :=
-  match r with RefGlobal => True | RefGen h => (h < length (gens w))%nat | RefNpInt _ => False end.
+  match r with RefGlobal => True | RefGen h => (h < length (gens w))%nat end.
 
 (* ------------------------------------------------------------------ lists *)
 Lemma set_nth_length {A} (g : A) : forall l h, length (set_nth h g l) = length l.
@@ -55,13 +55,13 @@ Proof. induction l as [|x l IH]; intros h; [destruct h; reflexivity|]. destruct 
 
 (* ------------------------------------------------------------------ state laws *)
 Lemma sel_put r g (w : world) : valid r w -> sel r (put r g w) = g.
-Proof. destruct r as [|h|z]; cbn; intros H; [reflexivity| |contradiction]. now apply nth_set_nth. Qed.
+Proof. destruct r as [|h]; cbn; intros H; [reflexivity|]. now apply nth_set_nth. Qed.
 Lemma put_put r g1 g2 (w : world) : put r g2 (put r g1 w) = put r g2 w.
-Proof. destruct r as [|h|z]; cbn; [reflexivity| |reflexivity]. unfold set_gen. cbn. now rewrite set_nth_set_nth. Qed.
+Proof. destruct r as [|h]; cbn; [reflexivity|]. unfold set_gen. cbn. now rewrite set_nth_set_nth. Qed.
 Lemma put_sel r (w : world) : put r (sel r w) w = w.
-Proof. destruct w as [g l o n]. destruct r as [|h|z]; cbn; [reflexivity| |reflexivity]. unfold set_gen. cbn. now rewrite set_nth_nth. Qed.
+Proof. destruct w as [g l o n]. destruct r as [|h]; cbn; [reflexivity|]. unfold set_gen. cbn. now rewrite set_nth_nth. Qed.
 Lemma valid_put r g r' (w : world) : valid r' w -> valid r' (put r g w).
-Proof. destruct r as [|h|z], r' as [|h'|z']; cbn; auto. now rewrite set_nth_length. Qed.
+Proof. destruct r as [|h], r' as [|h']; cbn; auto. now rewrite set_nth_length. Qed.
 
 (* ------------------------------------------------------------------ monad laws (pointwise) *)
 Lemma bind_eq {A B} (m : M A) (k : A -> M B) (w : world) a (w1 : world) : m w = (a, w1) -> bind m k w = k a w1.
@@ -115,7 +115,7 @@ Proof. induction l as [|x l IH]; intros k H; [reflexivity|]. destruct k; cbn in 
 Lemma to_stream_as_arg r (w : world) : to_stream (as_arg r) w = (r, w).
 Proof. destruct r; reflexivity. Qed.
 Lemma to_stream_valid s (w : world) r (w1 : world) : valid_sog s w -> to_stream s w = (r, w1) -> valid r w1.
-Proof. destruct s; cbn; intros H E; injection E as <- <-; cbn; auto. rewrite app_length. cbn. lia. Qed.
+Proof. destruct s; cbn; intros H E; injection E as <- <-; cbn; auto; rewrite app_length; cbn; lia. Qed.
 (* an entry point of the shape `stream = to_stream(seed); BODY(stream)` whose body is local to its stream *)
 Lemma entry_with_stream {A} (body : sref -> M A) (p : P A) s (w : world) :
   (forall r w', valid r w' -> body r w' = lift r p w') -> valid_sog s w ->
@@ -369,23 +369,20 @@ Theorem to_stream_cases (w : world) :
 Proof. split; [reflexivity|]. split; [|intros r; apply to_stream_as_arg].
   intros z. cbn. split; [reflexivity|]. split; [|reflexivity]. rewrite app_nth2, Nat.sub_diag by lia. reflexivity. Qed.
 
-(* QTomography.reset_seed(z), z <> 0, is honoured: the global state becomes gseed z *)
-Theorem reset_seed_nonzero_honoured o z (w : world) : z <> 0%Z ->
+(* QTomography.reset_seed(z) is honoured for EVERY integer z (0 included): the global state becomes gseed z *)
+Theorem reset_seed_honoured o z (w : world) :
   glob (snd (tomo_reset_seed gseed o (Some z) w)) = gseed z /\ objs (snd (tomo_reset_seed gseed o (Some z) w)) o = Some z.
-Proof. intros Hz. unfold tomo_reset_seed. destruct (Z.eqb_spec z 0); [contradiction|]. cbn. unfold upd. now rewrite Nat.eqb_refl. Qed.
+Proof. unfold tomo_reset_seed. cbn. unfold upd. now rewrite Nat.eqb_refl. Qed.
+(* ... hence a None-seeded generation made right after reset_seed(z) is a function of z and the arguments only, whatever the
+   world (global state, generators, objects, earlier calls) was before *)
+Theorem reset_seed_then_none o z c (w : world) : single_stream c SNone -> call_pre c = None ->
+  fst (run_call c SNone (snd (tomo_reset_seed gseed o (Some z) w))) = fst (call_body c (gseed z)).
+Proof. intros Hs Hp. rewrite (none_uses_global_state c _ Hs Hp). cbn [fst]. now rewrite (proj1 (reset_seed_honoured o z w)). Qed.
 
-(* FINDING C14-4: a numpy integer is not recognised as a seed; handed on as `random_state` it makes every multinomial
-   request start from the same freshly seeded state, so all members of a sequence with equal sample size are IDENTICAL
-   copies (and the world is untouched) instead of successive draws of one stream *)
-Lemma npint_loop pd n z : forall k (w : world),
-  mapM (fun n' => bind (request (RefNpInt z) (RMulti n' pd)) (fun v => ret (n', v))) (repeat n k) w
-  = (repeat (n, fst (draw (gseed z) (RMulti n pd))) k, w).
-Proof. induction k as [|k IH]; intros w; cbn [repeat mapM]; [reflexivity|].
-  unfold bind. unfold C14_Streams.request. cbn [C14_Streams.sel C14_Streams.put].
-  destruct (draw (gseed z) (RMulti n pd)) as [v g']. unfold ret at 1. rewrite IH. reflexivity. Qed.
-Theorem npint_members_identical pd n k z (w : world) :
-  dg_empi_seq pd (repeat n k) (SNpInt z) w = (repeat (n, fst (draw (gseed z) (RMulti n pd))) k, w).
-Proof. unfold C14_Streams.dg_empi_seq. rewrite (bind_eq _ _ w (RefNpInt z) w eq_refl). apply npint_loop. Qed.
+(* a numpy integer seed IS an integer seed: to_stream treats both alike, so every entry point returns the same value and
+   leaves the same world *)
+Theorem npint_seed_is_int_seed c z (w : world) : run_call c (SNpInt z) w = run_call c (SInt z) w.
+Proof. destruct c; reflexivity. Qed.
 
 End P.
 
@@ -400,12 +397,3 @@ Proof. revert g. induction n as [|n IH]; intros g; cbn [Nat.add unif].
     destruct (unif next m g2) as [l' g3]. reflexivity. Qed.
 End UnifP.
 
-(* FINDING C14-3: reset_seed(0) is ignored (`if seed:`): after it, a None-seeded generation still depends on what the
-   global state was before.  Witness on the free generator: two sessions that differ only in their earlier
-   np.random.seed value. *)
-Definition after_reset0 (z0 : Z) : @world fgen :=
-  snd (bind (construct_experiment fgseed None) (fun o => tomo_reset_seed fgseed o (Some 0%Z)) (set_glob (fgseed z0) fworld0)).
-Theorem reset_seed_zero_ignored_witness :
-  fst (run_call fdraw fmkgen fgseed (CTomoEmpiDists 2 5%Z) SNone (after_reset0 1%Z)) <>
-  fst (run_call fdraw fmkgen fgseed (CTomoEmpiDists 2 5%Z) SNone (after_reset0 2%Z)).
-Proof. vm_compute. intros H. discriminate H. Qed.
